@@ -53,9 +53,11 @@ def run(ctx):
         if op == "stepwise" and rng.random() < 0.5:
             c["drop_after"] = rng.randint(0, n)
         runs.append(c)
-    res = ctx.harness(binary, runs, timeout=1200)
+    res = ctx.harness(binary, runs, timeout=90, max_failures=3)   # a run takes milliseconds; a helper that does not return is a hang
     events, owner = [], []
     for ci, (c, r) in enumerate(zip(runs, res)):
+        if r.get("skipped"):
+            continue
         if "got" not in r:
             ctx.violation({"kind": "run", "case": c, "result": r, "what": "helper panicked or did not return"})
             continue
